@@ -22,6 +22,10 @@ type c18Op struct {
 	Keys    []int          `json:"keys,omitempty"`    // indices into the bindings
 	Unknown bool           `json:"unknown,omitempty"` // add a key that names no variable
 	Alien   string         `json:"alien,omitempty"`   // the first key gets a Go value that no item takes (nil, a struct, ...): a rejected argument
+	// Wrap 1..3: when the first key names an item variable it is bound to a new item that itself holds a variable of the
+	// placeholder's own name (<L v> / <U1 v> / <A v>): legal - the placeholder is gone afterwards - and the list of
+	// variable names of the message looks unchanged although the item tree changed
+	Wrap int `json:"wrap,omitempty"`
 }
 
 type c18Case struct {
@@ -169,6 +173,21 @@ func checkC18(c c18Case) (ci caseInfo, err error) {
 				bind[a.Name] = a
 				ci.label("fill:rejected-argument-type")
 			}
+			if op.Wrap > 0 && op.Alien == "" && len(op.Keys) > 0 && len(binds) > 0 {
+				if a := binds[op.Keys[0]%len(binds)]; a.Kind == "item" {
+					w := &model.Node{Kind: model.L, Children: []model.Child{{Var: a.Name}}}
+					switch op.Wrap {
+					case 2:
+						w = &model.Node{Kind: model.U1, Elems: []model.Elem{{Var: a.Name}}}
+					case 3:
+						w = &model.Node{Kind: model.A, AVar: &model.AVar{Name: a.Name, Min: 0, Max: -1}}
+					}
+					a = Assign{Name: a.Name, Kind: "item", Node: w}
+					fill[a.Name] = a.goValue(c.Variant)
+					bind[a.Name] = a
+					ci.label("fill:item-holding-the-placeholder-name")
+				}
+			}
 			if op.Unknown {
 				fill["no_such_variable"] = 7
 			}
@@ -240,6 +259,9 @@ func genC18(t *rapid.T) c18Case {
 			op = c18Op{Kind: "fill", Keys: rapid.SliceOfN(rapid.IntRange(0, 40), 0, 6).Draw(t, "keys"), Unknown: rapid.IntRange(0, 3).Draw(t, "unknown") == 3}
 			if rapid.IntRange(0, 7).Draw(t, "alienArg") == 7 {
 				op.Alien = rapid.SampledFrom(alienTypes).Draw(t, "alien")
+			}
+			if w := rapid.IntRange(0, 11).Draw(t, "wrap"); w <= 3 {
+				op.Wrap = w
 			}
 		}
 		c.Ops = append(c.Ops, op)
